@@ -33,6 +33,10 @@ func (sc *SubnetConfig) getSubnetsVarint(seed []byte, weighted bool) ([]*phantom
 		choices := make([]wr.Choice, 0, len(sc.WeightedSubnets))
 		for _, cjSubnet := range sc.WeightedSubnets {
 			cjSubnet := cjSubnet // copy loop ptr
+			if cjSubnet.GetSubnets() == nil {
+				// the version 0 and 1 clients leave groups without subnets out of the weighted choice
+				continue
+			}
 			choices = append(choices, wr.Choice{Item: cjSubnet, Weight: uint(cjSubnet.GetWeight())})
 		}
 		c, err := wr.NewChooser(choices...)
